@@ -3,11 +3,13 @@
 (* (entry points chosen by Eps); each is printed as JSON together with the    *)
 (* model's verdict under the configured constants: esc = 1 when the model     *)
 (* says the scenario touches a path outside the designated directory, nt =    *)
-(* number of paths the model says are touched.                                *)
+(* number of paths the model says are touched (only with WithVerdict; the     *)
+(* main space is checked by PathSafeMC instead).                              *)
 EXTENDS PathSafe, Json
-CONSTANT Eps
+CONSTANTS Eps, WithVerdict
 VARIABLE x
 Init == InSpace(x, Eps)
 Next == UNCHANGED x
-Emit == PrintT(<<"SCN", ToJson(x @@ [esc |-> IF Contained(x) THEN 0 ELSE 1, nt |-> Cardinality(Touches(x))])>>)
+Emit == IF WithVerdict THEN PrintT(<<"SCN", ToJson(x @@ [esc |-> IF Contained(x) THEN 0 ELSE 1, nt |-> Cardinality(Touches(x))])>>)
+        ELSE PrintT(<<"SCN", ToJson(x)>>)
 =============================================================================
